@@ -163,7 +163,11 @@ CLAIMED["C14"] = {
             "Refuted with a Coq witness replayed on the real code: '>= N confirmations' does not persist after a partial "
             "reorg (no NegativeConf; pinned by lnd's own TestTxNotifierReorgPartialConfirmation; documented, not a "
             "finding). Tied per run by differential correspondence against the real TxNotifier + bbolt HeightHintCache "
-            "(0 mismatches; exhaustive depth-4 histories in thorough) and an independent predicate on the implementation trace.",
+            "(0 mismatches; exhaustive depth-4 histories in thorough) and an independent predicate on the implementation trace. "
+            "Outdated historical-rescan results arriving after the details were found at tip are inside the theorems' "
+            "hypotheses and proved to be ignored; every run additionally replays a restart on the same hint cache "
+            "(re-register with the cached hint, truthful rescan): a client must be notified iff the tx has >= N "
+            "confirmations / the outpoint is spent on the final chain. 14 theorems.",
     "note": "Per-request projection (request independence exercised, not proved). Hypotheses of the theorems: client "
             "hints <= actual height, truthful rescan answers, ConnectTip/NotifyHeight pairing, single inclusion per chain, "
             "reorg depth < safety limit, unwatched inclusions at or above the cached hint; model-predicted Go panics "
@@ -390,12 +394,24 @@ CLAIMED["C17"] = {
             "taproot in 3; below 10 sat non-termination is proved (witness replayed on real ChanClosers each run). Model "
             "tied to lnwallet/chancloser by differential runs: pure-function grids, real CreateCloseProposal/"
             "CompleteCooperativeClose on 7 channel types (ECDSA and MuSig2 signatures, script-engine verdict, byte "
-            "equality of both sides' txs), and two real ChanClosers negotiating over real channels.",
+            "equality of both sides' txs), and two real ChanClosers negotiating over real channels. RBF cooperative close "
+            "(rbf_coop_transitions/states/msg_mapper): every ProcessEvent + protofsm event queue modelled per party plus "
+            "a two-party FIFO system. Proved: (safety, no assumption on the peer) a party only countersigns/broadcasts "
+            "the transaction its own wallet builds with the CLOSER paying and that the peer's selected signature is on; "
+            "(completeness) between mirrored honest parties every affordable offer is answered and both broadcast the "
+            "same tx with closer-pays exact balances; any sequence of such rounds from either side leaves nothing in "
+            "flight and identical broadcast sequences; shutdown (either/both initiators) and flush establish mirrored "
+            "terms; the announced signature field matches the outputs under stated dust/credit hypotheses. Witness "
+            "theorems replayed on lnd every run: no fee-monotonicity on RBF bumps, signature-field mislabelling "
+            "(DustLimitForSize vs channel dust limit), BlockHeight != 0 breaks the close (latent). Tie: two real RBF state "
+            "machines over real channels (4 types incl. taproot/MuSig2), seeded interleavings, tampered messages; full "
+            "state + every emitted message/tx compared with the model, engine verdict + byte equality + closer-pays predicates.",
     "note": "Trusted: Coq kernel, harness, python driver. Signatures/sighash/serialisation/script engine not modelled "
             "(exercised on every channel case; one Section hypothesis verify-sign). Negotiation machine abstracts the "
-            "channel as 'proposal succeeds iff fee <= opener balance + credit'. RBF-coop: option set modelled and driven "
-            "on the wallet calls; protofsm state machine, aux/extra outputs, custom sort, cached-ClosingSigned path not "
-            "modelled.",
+            "channel as 'proposal succeeds iff fee <= opener balance + credit'. RBF: ideal signatures, ValidateUpfrontShutdown oracle, MuSig2 nonce "
+            "handling and protofsm goroutine plumbing not modelled (ProcessEvents driven through a synchronous applyEvents "
+            "copy); progress proved for sequences of complete rounds (overlap covered per round + by harness). Aux/extra "
+            "outputs, custom sort, cached-ClosingSigned path not modelled.",
     "technique": "Coq proof (symmetry/algebra, potential-function termination measure, cycle invariant for the "
                  "refutation) + differential correspondence on real channels and ChanClosers + implementation-side predicates",
 }
